@@ -81,6 +81,13 @@ CLAIMS = {
    "Fault enumeration. All read-outcome sequences over {frame, failing frame, EAGAIN, timeout, ECONNRESET, unknown} up to a bound followed by each terminal, each with cancellation at every position "
    "(exhaustive within the bound), then random scripts to length 300 with bursts; processed frames and error stream must equal the reference machine's.",
    "read outcomes are the bare values gopacket returns; io.ErrNoProgress/ErrShortBuffer not generated", "C20"),
+ "C13": _c("E2-cmdwire",
+   "property-based testing: generated JSONL target lists with offending lines at drawn positions through the real generator stacks and full commands; reference line model (stop-or-skip) as oracle",
+   "Exploration. Target lists mixing valid entries with every kind of offending line (missing/ill-typed/unparseable address, ports 0/65536/negative/huge, broken JSON, blank, >64 KiB, IPv6) at drawn positions, "
+   "in pairs and addresses-x-ports mode, with/without --exclude, with/without ARP cache and gateway MAC. E1: the ordered request stream of the exact stacks the commands build is matched against a reference line model "
+   "(entries before the line handled normally, exactly one error stating the cause and no probe, then stop or continue as if absent; neighbours unchanged; errors.Is on the cause). "
+   "E2: full tcp/udp/icmp commands - frames per port and error records on stderr obey the same model, destination MAC per frame.",
+   "trusts verifkit/gram/lines.go as the definition of 'cannot become a probe' and of acceptable causes; ill-typed port in addresses mode not generated", "C13"),
 }
 
 # properties not (yet) claimed
